@@ -937,33 +937,37 @@ Proof.
     + (* the reader failed *)
       destruct (effo_delete_pending P Pben 1 c id (s_nostuck _ S)) as [E1 F1].
       destruct (cl_delete_pending 1 [] c id) as [c1 stuck] eqn:D. cbn [fst snd] in E1, F1. subst stuck.
-      cbn [fst snd]. split; [|discriminate]. split.
-      * eapply eff_trans; [apply E1|]. eapply eff_trans; [apply eff_cancel_stream; try exact Pben|].
-        eapply eff_trans; [apply eff_take_req_count|]. apply eff_ctx_upd_fin; [intros; apply cev_finish_resolve, Enr; [reflexivity | discriminate]| |].
-        2:{ (* no other pending body belongs to this Ctx *)
-            rewrite cc_pending_cl_take_req_count, cc_pending_cl_cancel_stream.
-            replace c1 with (fst (cl_delete_pending 1 [] c id)) by (rewrite D; reflexivity). rewrite cc_pending_cl_delete_pending'.
-            apply (pend_del_no_tag (cc_pending c) id (pb_tag pb) (s_pnd _ S)). intros pb2 J2 E2.
-            destruct (s_pb _ S _ J2) as (_ & y2 & Gy2 & Sy2). destruct (s_pb _ S _ Ipb) as (_ & y1 & Gy1 & Sy1). rewrite E2 in Gy2. congruence. }
-        (* the Ctx of this body has stream id, which has just left the table *)
-        assert (IQ1 : cc_inQ c1 = cc_inQ c) by (replace c1 with (fst (cl_delete_pending 1 [] c id)) by (rewrite D; reflexivity); apply cc_inQ_cl_delete_pending).
-        assert (RQ1 : cc_reqQueued c1 = cc_reqQueued c) by (replace c1 with (fst (cl_delete_pending 1 [] c id)) by (rewrite D; reflexivity); apply cc_reqQueued_cl_delete_pending).
-        destruct (s_pb _ S _ Ipb) as (NZ & xp & Gp & SP0). rewrite Hid in NZ, SP0.
-        assert (SP : forall y, cl_ctx_get c (pb_tag pb) = Some y -> ct_sid y = id) by (intros y Gy; congruence).
-        intros [H|H].
-        -- rewrite cc_inQ_cl_take_req_count, cc_inQ_cl_cancel_stream, IQ1 in H. destruct (s_inQ _ S _ H) as (y & Gy & Zy & _).
-           rewrite (SP _ Gy) in Zy. contradiction.
-        -- rewrite cc_reqQueued_cl_take_req_count, cc_reqQueued_cl_cancel_stream, RQ1 in H. apply in_map_iff in H.
-           destruct H as ([i u] & Hu & H). cbn in Hu. subst u. apply filter_In in H. destruct H as [H F]. cbn in F.
-           destruct (s_rq _ S _ _ H) as (y & Gy & Sy & _). rewrite (SP _ Gy) in Sy. subst i. rewrite N.eqb_refl in F. discriminate.
-      * apply (obl_take_resolve c (cl_take_req_count (cl_cancel_stream c1 id c_InternalError) id) id (pb_tag pb)
-                 (fun y => ctu_finished y true) CEBody S); auto.
-        -- eapply eff_trans; [apply E1|]. eapply eff_trans; [apply eff_cancel_stream; try exact Pben | apply eff_take_req_count].
-        -- rewrite cc_inQ_cl_take_req_count, cc_inQ_cl_cancel_stream.
-           replace c1 with (fst (cl_delete_pending 1 [] c id)) by (rewrite D; reflexivity). apply cc_inQ_cl_delete_pending.
-        -- rewrite cc_reqQueued_cl_take_req_count, cc_reqQueued_cl_cancel_stream.
-           replace c1 with (fst (cl_delete_pending 1 [] c id)) by (rewrite D; reflexivity). rewrite cc_reqQueued_cl_delete_pending. reflexivity.
-        -- intros t I. apply (proj2 (s_pending _ S _ Ipb)). rewrite Hid. assumption.
+      assert (IQ1 : cc_inQ c1 = cc_inQ c) by (replace c1 with (fst (cl_delete_pending 1 [] c id)) by (rewrite D; reflexivity); apply cc_inQ_cl_delete_pending).
+      assert (RQ1 : cc_reqQueued c1 = cc_reqQueued c) by (replace c1 with (fst (cl_delete_pending 1 [] c id)) by (rewrite D; reflexivity); apply cc_reqQueued_cl_delete_pending).
+      assert (PD1 : cc_pending c1 = cl_pend_del (cc_pending c) id) by (replace c1 with (fst (cl_delete_pending 1 [] c id)) by (rewrite D; reflexivity); apply cc_pending_cl_delete_pending').
+      (* only whoever takes the request off the table ends it *)
+      destruct (cl_req_find (cc_reqQueued c1) id) as [tg|]; [|cbn [fst snd]; split; [exact E1 | discriminate]].
+      set (c2 := cl_take_req_count c1 id).
+      set (c3 := cl_ctx_upd c2 (pb_tag pb) (fun x => cl_ctx_resolve (ctu_finished x true) CEBody)).
+      assert (E3 : effo P c c3).
+      { split.
+        - eapply eff_trans; [apply E1|]. eapply eff_trans; [apply eff_take_req_count|].
+          apply eff_ctx_upd_fin; [intros; apply cev_finish_resolve, Enr; [reflexivity | discriminate]| |].
+          2:{ (* no other pending body belongs to this Ctx *)
+              unfold c2. rewrite cc_pending_cl_take_req_count, PD1.
+              apply (pend_del_no_tag (cc_pending c) id (pb_tag pb) (s_pnd _ S)). intros pb2 J2 E2.
+              destruct (s_pb _ S _ J2) as (_ & y2 & Gy2 & Sy2). destruct (s_pb _ S _ Ipb) as (_ & y1 & Gy1 & Sy1). rewrite E2 in Gy2. congruence. }
+          (* the Ctx of this body has stream id, which has just left the table *)
+          destruct (s_pb _ S _ Ipb) as (NZ & xp & Gp & SP0). rewrite Hid in NZ, SP0.
+          assert (SP : forall y, cl_ctx_get c (pb_tag pb) = Some y -> ct_sid y = id) by (intros y Gy; congruence).
+          intros [H|H].
+          + unfold c2 in H. rewrite cc_inQ_cl_take_req_count, IQ1 in H. destruct (s_inQ _ S _ H) as (y & Gy & Zy & _).
+            rewrite (SP _ Gy) in Zy. contradiction.
+          + unfold c2 in H. rewrite cc_reqQueued_cl_take_req_count, RQ1 in H. apply in_map_iff in H.
+            destruct H as ([i u] & Hu & H). cbn in Hu. subst u. apply filter_In in H. destruct H as [H F]. cbn in F.
+            destruct (s_rq _ S _ _ H) as (y & Gy & Sy & _). rewrite (SP _ Gy) in Sy. subst i. rewrite N.eqb_refl in F. discriminate.
+        - apply (obl_take_resolve c c2 id (pb_tag pb) (fun y => ctu_finished y true) CEBody S); auto.
+          + eapply eff_trans; [apply E1 | apply eff_take_req_count].
+          + unfold c2. rewrite cc_inQ_cl_take_req_count. exact IQ1.
+          + unfold c2. rewrite cc_reqQueued_cl_take_req_count, RQ1. reflexivity.
+          + intros t I. apply (proj2 (s_pending _ S _ Ipb)). rewrite Hid. assumption. }
+      destruct (cl_can_write c3); cbn [fst snd]; (split; [|discriminate]); [|exact E3].
+      eapply effo_trans; [exact E3 | apply effo_note, Pben; reflexivity].
   - (* a chunk goes out *)
     set (n := if (_ <? 0)%Z then 0%Z else _).
     set (pb' := pbu_body _ _). set (endb := negb (cl_has_more pb')).
